@@ -227,8 +227,9 @@ pub struct MObj {
     pub fin_calls: u32,
     pub drop_calls: u32,
     pub cells: [Option<u8>; S],
-    /// number of self-references parked in the object's own traced bag
+    /// number of references parked in the object's traced bag (all to `bag_target`; 0xFF = to the object itself)
     pub bag_self: u32,
+    pub bag_target: u8,
     pub wcell: Option<WRef>,
     pub fin_script: u8,
     pub drop_script: u8,
@@ -265,6 +266,7 @@ impl MObj {
             drop_calls: 0,
             cells: [None; S],
             bag_self: 0,
+            bag_target: 0xFF,
             wcell: None,
             fin_script: 0,
             drop_script: 0,
@@ -383,6 +385,10 @@ impl Model {
                 }
             }
         }
+        // a traced bag filled with references to another object counts as one edge here (count() adds the rest)
+        if ob.bag_self > 0 && ob.bag_target != 0xFF {
+            f(ob.bag_target, true);
+        }
     }
 
     /// Objects reachable from program-held handles through all Cc fields (traced or not)
@@ -426,8 +432,13 @@ impl Model {
             }
         }
         n += self.stash_strong[o];
-        if self.objs[o].value_alive() {
+        if self.objs[o].value_alive() && self.objs[o].bag_target == 0xFF {
             n += self.objs[o].bag_self;
+        }
+        for p in &self.objs {
+            if p.value_alive() && p.bag_self > 0 && p.bag_target as usize == o {
+                n += p.bag_self - 1; // one of them is reported by out_edges below
+            }
         }
         for p in 0..self.objs.len() {
             self.out_edges(p, |t, _| {
@@ -1194,6 +1205,18 @@ fn cb_drop_end(id: u8) {
     if (id as usize) < m.objs.len() {
         m.objs[id as usize].glue_done = true;
     }
+    // The Cleaner field has just been dropped (the sentinel is the last field): in panic-free executions every
+    // action registered on it has run by now - also when this destruction was itself caused by one of those actions
+    #[cfg(feature = "cleaners")]
+    if m.faults == 0 && !std::thread::panicking() {
+        let late: Vec<(usize, u32)> = m.actions.iter().enumerate().filter(|(_, a)| a.owner == id && a.runs != 1).map(|(k, a)| (k, a.runs)).collect();
+        if let Some((k, runs)) = late.first() {
+            let (k, runs) = (*k, *runs);
+            drop(m);
+            v!("C10", "P-clean", "cleaning action #{} has run {} times when the drop of its Cleaner (owner #{}) returned", k, runs, id);
+            m = c.model.borrow_mut();
+        }
+    }
     drop(m);
     // Pop up to and including this object's Destructor frame
     let mut st = c.stack.borrow_mut();
@@ -1518,6 +1541,27 @@ fn checked_upgrade(w: &Weak<Node>, target: WRef) -> Option<Cc<Node>> {
         }
     };
     let sc = w.strong_count();
+    // A live target that already has the maximum number of Ccs: the upgrade must panic and change nothing (C16)
+    let at_max = must_none.is_none() && tid.map_or(false, |t| c.model.borrow().count(t) >= crate::world::STRONG_MAX);
+    if at_max {
+        let depth = c.stack.borrow().len();
+        let r = catch_unwind(AssertUnwindSafe(|| w.upgrade()));
+        unwind_fix_stack(depth);
+        match r {
+            Ok(x) => {
+                if must_some || x.is_some() {
+                    v!("C16", "P-sat", "Weak::upgrade at the maximum strong count did not panic (returned {})", if x.is_some() { "Some" } else { "None" });
+                }
+                std::mem::forget(x);
+            },
+            Err(_) => {
+                if w.strong_count() != sc {
+                    v!("C16", "P-sat", "a panicking Weak::upgrade changed the strong count {} -> {}", sc, w.strong_count());
+                }
+            },
+        }
+        return None;
+    }
     let res = w.upgrade();
     match &res {
         Some(cc) => {
